@@ -353,11 +353,12 @@ KANI_USE = """    use std::collections::{BTreeMap, HashSet};
 """
 
 KANI_TRUSTED = {
+    r"kani::assume\(i < N\)": "the byte index at which payload bytes are compared ranges over the whole payload (i < N)",
     r"kani::assume\(len <= MAX[PD]\)": "bound of the codec stand-ins: payload <= 16 bytes, file <= 24 bytes (content unconstrained)",
 }
 
 KANI_HARNESSES = [
-    ("blob_roundtrip", "bounded", "Store::write_blob + Store::read_blob", "payload.len()<=16"),
+    ("blob_roundtrip", "bounded", "Store::write_blob + Store::read_blob", "each payload length 0..=16, all contents"),
     ("blob_reuse_skips_write", "bounded", "Store::write_blob", "payload.len()==4"),
     ("blob_reject_other_shapes", "bounded", "Store::read_blob", "file.len()<=24"),
     ("blob_missing_is_miss", "proof", "Store::read_blob", None),
@@ -403,3 +404,33 @@ def kani_job(ctx, res):
     lib = "pub mod cache {\n" + KANI_USE + "\n".join(parts) + "\n" + ctx.unit_file("store", "harness.rs") + "}\n"
     hs = [Harness("cache::harness::" + n, kind=k, fn=fn, bound=b) for n, k, fn, b in KANI_HARNESSES]
     return KaniJob("codec", lib, hs, items=items, trusted=KANI_TRUSTED, jobs=2, timeout=2400, per_harness_timeout=900)
+
+
+
+def replay(ctx, res, failure):
+    """seeded native run of the REAL text of crates/cache/src/lib.rs (whole file minus its test module) on a temp directory against an
+    executable form of the view contracts (units/store/replay.rs). veryl_path::atomic_write is taken from crates/path if the tree has it."""
+    import os
+    from vp.core import native_search, NATIVE_RNG
+    text = ctx.src(L).text
+    cut = text.find("#[cfg(test)]\nmod tests")
+    if cut > 0:
+        text = text[:cut]
+    text = re.sub(r"(?m)^//![^\n]*\n", "", text)    # E2: inner doc comments dropped
+    aw = None
+    pp = os.path.join(ctx.repo, "crates", "path", "src", "lib.rs")
+    if os.path.isfile(pp):
+        try:
+            from vp.extract import Src
+            ps = Src(ctx.repo, "crates/path/src/lib.rs")
+            aw = [m for m in re.finditer(r"(?s)#\[cfg\(not\(target_family = \"wasm\"\)\)\]\npub fn atomic_write.*?\n}\n", ps.text)]
+            aw = aw[0].group(0) if aw else None
+        except Exception:
+            aw = None
+    if aw is None:
+        aw = "pub fn atomic_write<P: AsRef<Path>>(path: P, contents: &[u8]) -> std::io::Result<()> { std::fs::write(path, contents) }\n"
+    body = (NATIVE_RNG + "\n#[allow(dead_code)]\nmod veryl_path {\n    use std::path::Path;\n" + aw + "}\n"
+            "#[allow(dead_code, unused_imports)]\nmod cache {\n    use super::veryl_path;\n" + text + "}\n" + ctx.unit_file("store", "replay.rs"))
+    return native_search(ctx, "store", "store", body, args=[ctx.seed], timeout=1500,
+                         deps={"blake3": '"1.5"', "log": '"0.4"', "serde": '{ version = "1.0", features = ["derive"] }', "toml": '"1.1.2"',
+                               "fs4": '{ version = "1.1.0", features = ["sync"] }', "tempfile": '"3.20"'})
